@@ -541,7 +541,17 @@ def _table_of(t, ast_tables):
 
 
 def _kwargs_of(t):
-    return {a[1]: a[2] for a in t[2] if a[0] == "kw"} if t[0] == "call" else {}
+    """{parameter name: argument term} of a call term; positional arguments of a repository function are named through
+    its signature, so that f(x, 'rb') and f(x, mode='rb') read the same"""
+    if t[0] != "call":
+        return {}
+    out = {a[1]: a[2] for a in t[2] if a[0] == "kw"}
+    if t[1][0] == "func" and isinstance(t[1][1], ast.FunctionDef):
+        names = [a.arg for a in t[1][1].args.posonlyargs + t[1][1].args.args]
+        for k, a in enumerate([a for a in t[2] if a[0] not in ("kw", "star")]):
+            if k < len(names) and names[k] not in out:
+                out[names[k]] = a
+    return out
 
 
 def _cfg_of_path(p, names):
@@ -632,8 +642,8 @@ def rule_ag7(ctx: Ctx) -> RuleResult:
                 kw = _kwargs_of(t)
                 r.ob(kw.get("mode") == ("const", "wb"), lambda: Finding("AG-7", "%s{write-mode}" % JSON, md.where(fd), "the file must be written in mode 'wb'"))
             if _stage_id(t) == "rxsci.data.codec.encode":
-                args = [a for a in t[2]]
-                r.ob(len(args) == 1 and args[0][0] in ("param", "arg") and args[0][1] == "encoding", lambda: Finding(
+                kw = _kwargs_of(t)
+                r.ob(set(kw) == {"encoding"} and kw["encoding"][0] in ("param", "arg") and kw["encoding"][1] == "encoding", lambda: Finding(
                     "AG-7", "%s{encode-args}" % JSON, md.where(fd), "encode must receive the encoding parameter only (incremental by default)"))
             if _stage_id(t) == "rxsci.container.json.dump":
                 kw = _kwargs_of(t)
@@ -671,8 +681,8 @@ def rule_ag7(ctx: Ctx) -> RuleResult:
         r.ob(kw.get("mode") == ("const", "rb"), lambda: Finding("AG-7", "%s{read-mode}" % JSON, ml.where(fl), "the file must be read in mode 'rb'"))
         for t in stages:
             if _stage_id(t) == "rxsci.data.codec.decode":
-                args = [a for a in t[2]]
-                r.ob(len(args) == 1 and args[0][0] in ("param", "arg") and args[0][1] == "encoding", lambda: Finding(
+                kw = _kwargs_of(t)
+                r.ob(set(kw) == {"encoding"} and kw["encoding"][0] in ("param", "arg") and kw["encoding"][1] == "encoding", lambda: Finding(
                     "AG-7", "%s{decode-args}" % JSON, ml.where(fl), "decode must receive the encoding parameter only (incremental by default)"))
     # ---- tables ----------------------------------------------------------------------------
     wt, rt = wtable, rtable
@@ -794,9 +804,13 @@ def rule_pu2(ctx: Ctx) -> RuleResult:
             r.ob(len(closes) == 1 and len(term) == 1 and closes[0] < term[0], lambda: mk_finding(
                 "PU-2", spec, None, cfg, p, "the parquet writer must be closed (footer written) before on_completed", extra="close"))
     # loader: every row of every batch is emitted before on_completed
-    cands = [(mm, f) for mm, f in ctx.functions_named(PQ, "_load_file")]
-    if not cands:
-        raise AnalysisError("parquet.load_from_file._load_file vanished")
+    lm, lfn = ctx.function(PQ, "load_from_file")
+    cands = [(lm, f) for f in ast.walk(lfn) if isinstance(f, ast.FunctionDef) and f is not lfn and any(
+        isinstance(n, ast.Call) and isinstance(n.func, ast.Attribute) and n.func.attr == "iter_batches" for n in ast.walk(f))]
+    # the innermost function that iterates the record batches (helpers it calls are followed by the path enumeration)
+    cands = [c for c in cands if not any(o[1] is not c[1] and any(x is o[1] for x in ast.walk(c[1])) for o in cands)]
+    if len(cands) != 1:
+        raise AnalysisError("parquet.load_from_file: expected one inner function iterating ParquetFile.iter_batches, found %d" % len(cands))
     ml, fl = cands[0]
     r.instances += 1
     saw_rows = False
